@@ -10,7 +10,8 @@
 (*   n     name without sigil ("" = unnamed global/function; attribute     *)
 (*         groups and metadata nodes are named by their decimal ID)        *)
 (*   body  type: "struct" | "opaque" | "alias"; func: "decl" | "def" |     *)
-(*         "resolver"; md: "tuple" | "distinct" | "di"; attr: the function *)
+(*         "resolver"; md: "tuple" | "distinct" | "di"; global: "" | "as1" *)
+(*         (address space 1); attr: the function                           *)
 (*         attributes of the group, space separated; otherwise ""          *)
 (*   refs  references made by the entity outside function bodies           *)
 (*   locals (func def) parameters, blocks and instructions in layout order *)
@@ -44,13 +45,15 @@ Md(n, refs)      == Ent("md", n, "tuple", refs, <<>>)
 MdDistinct(n, refs) == Ent("md", n, "distinct", refs, <<>>)
 MdDI(n, refs)    == Ent("md", n, "di", refs, <<>>)          \* a specialised node: !DIDerivedType(baseType: .., scope: ..)
 Ulo(to)          == Ent("ulo", "", "", <<Ref("g.ulo", to)>>, <<>>)
+UloBA(f, b)      == Ent("ulo", "", "", <<RefX("l.baddr", f, b)>>, <<>>)   \* uselistorder i8* blockaddress(@f, %b), ...
+GlobalAS(n, refs) == Ent("global", n, "as1", refs, <<>>)                 \* a global in address space 1
 UloBB(f, b)      == Ent("ulobb", "", "", <<RefX("l.ulobb", f, b)>>, <<>>)
 
 \* index a reference site is looked up in
 RefClass(rk) ==
   CASE rk \in {"ty.alias", "ty.field", "ty.global", "ty.sig", "ty.inst"} -> "type"
     [] rk \in {"g.init", "g.aliasee", "g.resolver", "g.operand", "g.callee", "g.personality",
-               "g.mdvalue", "g.ulo"} -> "glob"
+               "g.mdvalue", "g.ulo", "g.cmp"} -> "glob"
     [] rk \in {"c.global", "c.func"} -> "comdat"
     [] rk \in {"a.func", "a.call"} -> "attr"
     [] rk \in {"m.attach", "m.tuple", "m.named", "m.difield"} -> "md"
@@ -129,7 +132,18 @@ Patterns == <<
      Global("g", <<Ref("ty.global", "a"), Ref("c.global", "c"), Ref("m.attach", "0")>>), Decl("f", <<Ref("a.func", "1")>>) >>,
   \* 14: specialised debug-info nodes referring to each other (forward reference, cycle through a distinct node)
   << NamedMd("m", <<Ref("m.named", "2")>>), MdDI("2", <<Ref("m.difield", "7"), Ref("m.difield", "1")>>),
-     MdDI("1", <<Ref("m.difield", "7")>>), MdDI("7", <<>>), Md("0", <<Ref("m.tuple", "2")>>) >>
+     MdDI("1", <<Ref("m.difield", "7")>>), MdDI("7", <<>>), Md("0", <<Ref("m.tuple", "2")>>) >>,
+  \* 15: named metadata whose natural order differs from the bytewise order
+  << NamedMd("a10", <<Ref("m.named", "0")>>), NamedMd("a2", <<Ref("m.named", "0")>>), NamedMd("a9", <<>>), Md("0", <<>>) >>,
+  \* 16: blockaddress of equally named blocks of two functions
+  << Global("g", <<RefX("l.baddr", "f", "bb")>>), Global("a", <<RefX("l.baddr", "h", "bb")>>),
+     Def("f", <<>>, << Loc("entry", "block", <<Ref("l.target", "bb")>>), Loc("bb", "block", <<>>) >>),
+     Def("h", <<>>, << Loc("entry", "block", <<Ref("l.target", "bb")>>), Loc("bb", "block", <<>>) >>) >>,
+  \* 17: use-list order of a blockaddress constant (the constant is created while the directive is translated)
+  << Global("a", <<RefX("l.baddr", "f", "bb")>>), Global("b", <<RefX("l.baddr", "f", "bb")>>),
+     Def("f", <<>>, << Loc("entry", "block", <<Ref("l.target", "bb")>>), Loc("bb", "block", <<>>) >>), UloBA("f", "bb") >>,
+  \* 18: the type of a global (address space) read through a use in another global's initialiser
+  << GlobalAS("g", <<>>), Global("h", <<Ref("g.cmp", "g")>>), Global("a", <<Ref("g.cmp", "g")>>), Alias("b", <<Ref("g.aliasee", "g")>>) >>
 >>
 
 \* Patterns outside LLVM's own grammar that the parser accepts (type aliases); kept apart because
